@@ -184,6 +184,21 @@ def r09b(ctx):
         if ctx.check(ok, 'R09b', path, 'record calls', '-', 'one header, one entry loop, one verification loop, one extension'):
             vt, vf = bool_edges(a, lambda e: e[0] == 'call' and sg(e[1]).endswith('contains_verification'))
             ok1 = c05.loop_of(a, ent[0]) is not None and c05.loop_of(a, ver[0]) is not None and bool(vt) and a.cfg.must_pass(ver[0], via_edges=vt) and not a.cfg.must_pass(ent[0], via_edges=vt)
+            if not ok1 and c05.loop_of(a, ent[0]) is not None and c05.loop_of(a, ver[0]) is not None and bool(vt) and not a.cfg.must_pass(ent[0], via_edges=vt):
+                # `let n_verif = if header.contains_verification() { n } else { 0 }; for _ in 0..n_verif`: the loop itself is not
+                # under the flag, its trip count is
+                lpv = c05.loop_of(a, ver[0])
+                for l_, ds_ in a.flow.defs.items():
+                    for d_ in ds_:
+                        if d_[0] != 'assign':
+                            continue
+                        e_ = a.flow.rvalue(d_[3], 0)
+                        if e_[0] == 'agg' and 'Range' in e_[2] and a.cfg.must_pass(lpv[0], via_blocks=[d_[1]]) and d_[1] not in lpv[1]:
+                            end_ = dict(e_[3]).get('end')
+                            srcs_ = a.flow.sources(end_) if end_ is not None else []
+                            if len(srcs_) >= 2 and all((se[:2] == ('const', 0)) or (sb is not None and a.cfg.must_pass(sb, via_edges=vt) and flow.mentions(se, lambda z: z[0] == 'field' and z[2] == 'num_entries'))
+                                                       for (sb, _, se) in srcs_) and any(se[:2] != ('const', 0) for (_, _, se) in srcs_):
+                                ok1 = True
             ctx.check(ok1, 'R09b', path, 'verification under flag', a.loc(ver[0]), 'entries are %s unconditionally in a loop; verification entries in a loop under contains_verification()' % ('written' if kind == 'w' else 'read'))
             if kind == 'r':
                 # both loops are bounded by num_entries of the header just read
@@ -332,6 +347,20 @@ def r09d(ctx):
         f = fs[0]
         missing = []
         acc_writer = not a.path.endswith('serialize_from')
+        # struct-literal form: the footer that is serialised is one aggregate `MDBShardFileFooter { f: .., ..Default::default() }`
+        recv = a.arg(f, 0)
+        if recv[0] == 'agg' and recv[2].startswith(SF + 'MDBShardFileFooter') and not any(a.stores_to_field(fld) for fld in FOOTER_FIELDS):
+            comps = dict(recv[3])
+            need = FOOTER_FIELDS + ([] if acc_writer and a.path.endswith('set_operation') else BYTE_TOTALS)
+            # a field taken over from another footer value (`..Default::default()`) reads that value's namesake field
+            missing = [fld for fld in need if fld not in comps or (comps[fld][0] == 'field' and comps[fld][2] == fld)]
+            ctx.check(not missing, 'R09d', a.path, 'definite assignment', a.loc(f), 'every offset/count (and directly assigned total) footer field is given explicitly in the footer literal that is written',
+                      'footer field(s) %s keep their default in the footer literal' % missing)
+            accs = {flow.show(comps[fld]) for fld in FOOTER_FIELDS if fld.endswith('_offset') and fld in comps}
+            ctx.check(len(accs) == 1, 'R09d', a.path, 'one position accumulator', '-', 'every section offset is taken from the same running position accumulator (%s)' % sorted(accs))
+            if acc_writer:
+                totals_paired(ctx, a)
+            continue
         for fld in FOOTER_FIELDS + ([] if acc_writer and a.path.endswith('set_operation') else BYTE_TOTALS):
             sts = a.stores_to_field(fld)
             blocks = [b for (b, si, s) in sts]
